@@ -56,7 +56,7 @@ func main() {
 		if c.Choices == nil {
 			cj = []byte("[]")
 		}
-		cmd := exec.Command(filepath.Join(ev.Root, ".work", "bin", "sched"), "replay", c.Scenario, string(cj))
+		cmd := exec.Command(filepath.Join(ev.Work(), "bin", "sched"), "replay", c.Scenario, string(cj))
 		out, err := cmd.CombinedOutput()
 		fmt.Print(string(out))
 		if err != nil {
@@ -166,7 +166,7 @@ func main() {
 		}
 	}
 	r.Sample(map[string]interface{}{"scenario": worst.Scenario, "bound": worst.Bound, "executions": worst.Executions, "decisions": worst.Points})
-	if st, err := os.ReadFile(filepath.Join(ev.Root, ".work", "instr", "stats.txt")); err == nil {
+	if st, err := os.ReadFile(filepath.Join(ev.Work(), "instr", "stats.txt")); err == nil {
 		r.Set("instrumented_sites", string(st))
 	}
 	r.Finish()
